@@ -99,7 +99,7 @@ def flatten_instance(inst, celldef, net):
     return {p: local.get(p) for p in celldef['outs']}
 
 
-def build_host(hnet, libs):
+def build_host(hnet, libs, node_order=None):
     """hnet: {'inputs': [sig], 'items': [inst | prim gate], 'outputs': [{'name','sig'}]} -> (kyupy Circuit with un-resolved instances, flat Net)
     items in topological order; instance = {'name','lib','cell','in':{pin:sig|None},'out':{pin:bool}}; prim = G gate record."""
     from kyupy.circuit import Circuit, Node, Line
@@ -113,11 +113,17 @@ def build_host(hnet, libs):
         f = Node(c, s)
         Line(c, n, f)
         forks[s] = f
+    # node_order: permutation of item positions; instance/gate nodes are created in that order so that resolve_tlib_cells
+    # (which walks the nodes by index) may meet a reader before its driver
+    pre = {}
+    for k in (node_order or []):
+        it = hnet['items'][k]
+        pre[it['name']] = Node(c, it['name'], it['cell'] if 'cell' in it else it['kind'])
     for it in hnet['items']:
         if 'cell' in it:
             lib = getattr(T, it['lib'])
             cd = lib_cells(it['lib'])[it['cell']]
-            n = Node(c, it['name'], it['cell'])
+            n = pre.get(it['name']) or Node(c, it['name'], it['cell'])
             for p, s in it['in'].items():
                 if s is not None:
                     Line(c, forks[s], (n, lib.pin_index(it['cell'], p)))
@@ -127,8 +133,12 @@ def build_host(hnet, libs):
                     Line(c, (n, lib.pin_index(it['cell'], p)), f)
                     forks[f'{it["name"]}~{p}'] = f
             flatten_instance(it, cd, flat)
+            if any(kind_to_fam(k)[1] for _, k, _ in cd['stmts']) and 'dff' not in it['cell'].lower() and 'latch' not in it['cell'].lower():
+                # a sequential cell whose *name* does not say so (DLH_X1, TLATX1, ...): before it is resolved the circuit does not
+                # list it as a state element, so it may legitimately be pruned like any other dangling cell
+                flat.setdefault('hidden_state', []).append(it['name'])
         else:
-            n = Node(c, it['name'], it['kind'])
+            n = pre.get(it['name']) or Node(c, it['name'], it['kind'])
             for p, s in enumerate(it['ins']):
                 if s is not None:
                     Line(c, forks[s], (n, p))
